@@ -1,5 +1,5 @@
 (* C20 — the printed par/seq plan. Statements only; proofs in PlanPrint.v. *)
-From Shred Require Import Base SrcParams Plan PlanObs PlanLemmas PlanInv PlanLoc PlanBuild PlanProps PlanPrint.
+From Shred Require Import Base SrcParams Plan PlanObs PlanLemmas PlanInv PlanLoc PlanBuild PlanProps PlanPrint BatchProps OracleProps PrintOracle.
 
 (* The text written by write_par_seq (print_builder walks the ID table and the name map) is
    the rendering of the EXECUTED layout — the boxed systems stage by stage, group by group,
@@ -32,6 +32,14 @@ Print Assumptions C20_shown_name.
 
 (* the printer is a total function of the builder (the repaired code has no unwrap on the name
    lookup: fixed 526450e); an empty builder prints "seq![\n]\n" *)
+(* the oracle `print_matches` that suite S1 evaluates on the REAL Debug text against the REAL executed layout
+   holds for the model's text and layout (so it can fire only where the crate differs from the model) *)
+Theorem C20_oracle_print_matches_holds_on_the_model :
+  forall rs b, plan rs = Ok b -> Forall reg_time_ok1 rs -> NoDup (sys_tags rs) ->
+  o_print rs (layout_tags b) (print_builder b) = true.
+Proof. exact o_print_on_model. Qed.
+Print Assumptions C20_oracle_print_matches_holds_on_the_model.
+
 Example C20_empty : print_builder empty_builder = [115;101;113;33;91;10;93;10]%N.
 Proof. vm_compute. reflexivity. Qed.
 Example C20_example :
